@@ -18,6 +18,7 @@ def profiles(tier):
     return [
         dict(n=60 if q else 800, maxlen=22, nremotes=2, caps=(16, 64, 4096), vlanes=[], mlanes=[], slanes=["sup"], usecmd=True, faults=("drop",), burst=True),
         dict(n=50 if q else 800, maxlen=30, nremotes=3, caps=(16, 32), vlanes=["val"], mlanes=[], slanes=["sup"], usecmd=True, faults=(), burst=False),
+        dict(n=40 if q else 600, maxlen=22, nremotes=2, caps=(16, 4096), vlanes=[], mlanes=[], slanes=["sup"], usecmd=True, faults=("rich",), advances=(25, 60), burst=True),
     ]
 
 
